@@ -596,3 +596,21 @@ impl<D: DiffHook> DiffHook for Reentrant<D> {
         self.inner.finish()
     }
 }
+
+/// An "offset lookup": item `base + i` of the sequence is `data[i]`; nothing exists outside
+/// `base .. base + data.len()` (reads there panic).  Lets a range sit anywhere in usize.
+pub struct OffsetView<'a, T> {
+    pub data: &'a [T],
+    pub base: usize,
+}
+
+impl<'a, T> Index<usize> for OffsetView<'a, T> {
+    type Output = T;
+    #[inline]
+    fn index(&self, i: usize) -> &T {
+        if i < self.base || i - self.base >= self.data.len() {
+            panic!("read of index {} outside the requested range {}..{}", i, self.base, self.base.wrapping_add(self.data.len()));
+        }
+        &self.data[i - self.base]
+    }
+}
